@@ -162,6 +162,32 @@ func InstrIndex(i ssa.Instruction) int {
 	return -1
 }
 
+// RetResults returns the values a Return yields, looking through go/ssa's
+// spilling of results in functions that contain defers (there each result is
+// `*cell` with the cell stored immediately before, in the same block).
+func RetResults(r *ssa.Return) []ssa.Value {
+	out := make([]ssa.Value, len(r.Results))
+	for i, v := range r.Results {
+		out[i] = v
+		u, ok := v.(*ssa.UnOp)
+		if !ok || u.Op != token.MUL {
+			continue
+		}
+		al, ok := u.X.(*ssa.Alloc)
+		if !ok {
+			continue
+		}
+		instrs := r.Block().Instrs
+		for k := len(instrs) - 1; k >= 0; k-- {
+			if st, ok := instrs[k].(*ssa.Store); ok && st.Addr == ssa.Value(al) {
+				out[i] = st.Val
+				break
+			}
+		}
+	}
+	return out
+}
+
 // Returns lists the Return instructions of fn.
 func Returns(fn *ssa.Function) []*ssa.Return {
 	var out []*ssa.Return
